@@ -335,7 +335,7 @@ def _target_programs():
               'x < y', 'x is y', 'x in y', 'x and y', 'x or y', 'x if y else z', 'lambda: x', 'lambda a: a', '(x)', '((x))', '(x.y)', '(x, y)', '(x,)', '()', '[]', '[x]', '[x, y]',
               '[x, *y]', '*x', '*x, y', '(*x, y)', 'x, y', 'x, (y, z)', '{}', '{x}', '{x: y}', '[a for a in b]', '(a for a in b)', '{a for a in b}', '{a: b for a in c}',
               '1', '1.5', '1j', '"s"', 'b"s"', 'f"{x}"', 'f"s"', '"a" "b"', 'None', 'True', 'False', '...', '__debug__', 'yield', 'yield x', '(yield)', '(yield x)',
-              'x := 1', '(x := 1)', 'x.y.z', 'x[0][1]', 'x()()', '(x)[0]', '(x).y', '[x][0]', 'x if y else z.a', '`x`', 'x!', 'print', 'x[y:=1]', 'x[*y]', '*x.y', '**x']
+              '*x.y, z', 'z, *x.y', '*(a, b), c', '*[a, b], c', '*x[0], y', '(*x.y, z)', '[*x.y]', '[*(a, b)]', '[*[a, b], c]', '*(a.b, c[0]), d', 'x := 1', '(x := 1)', 'x.y.z', 'x[0][1]', 'x()()', '(x)[0]', '(x).y', '[x][0]', 'x if y else z.a', '`x`', 'x!', 'print', 'x[y:=1]', 'x[*y]', '*x.y', '**x']
     ctxs = ['%s = 1\n', '%s: int\n', '%s: int = 1\n', '(%s): int = 1\n', '%s += 1\n', '%s @= 1\n', 'del %s\n', 'del (%s)\n', 'del [%s]\n', 'for %s in z: pass\n',
             'with z as %s: pass\n', 'with (z as %s): pass\n', '[1 for %s in z]\n', '(%s := 1)\n', 'a = %s = 1\n', '%s, b = 1, 2\n', '[%s, b] = 1, 2\n', 'async def f():\n    %s: int = 1\n',
             'async def f():\n    async for %s in z: pass\n', 'def f():\n    %s = yield\n', 'try: pass\nexcept E as %s: pass\n', 'import m as %s\n', 'f(%s=1)\n', 'def f(a=%s): pass\n',
